@@ -196,10 +196,10 @@ var registry = []Harness{
 	{Prop: "C12", Pkg: "nns", Func: "VerifC12Expiry", Link: []string{"nns"},
 		Bound: "a name with symbolic lifetime 1..1000 s and one record, a symbolic time span 1..1.1*10^6 ms; getRecords, resolve, getAllRecords answer exactly until the expiration instant"},
 	{Prop: "C03", Pkg: "proxy", Func: "VerifC03", Link: []string{"alphabet", "audit", "balance", "container", "neofs", "neofsid", "netmap", "nns", "processing", "proxy", "reputation", "probe1"},
-		Quick: c03Params([]int{7}), Thorough: c03Params([]int{1, 3, 7}),
-		Bound: "one invocation per mutating method (47 methods of 10 contracts, plus the public Balance transfer with a Null sender; NNS is C11, update is C16) from a small fixture built through the API, arguments concrete/valid, signer set symbolic over {Alphabet 2n/3+1 account, committee n/2+1 account, Inner Ring majority account, one committee member, the named user, the named node}+stranger; committee size = param2 (7 in quick: the two thresholds differ)"},
+		Quick: c03Params([]int{5, 6, 7}), Thorough: c03Params([]int{1, 2, 3, 4, 5, 6, 7}),
+		Bound: "one invocation per mutating method (47 methods of 10 contracts, plus the public Balance transfer with a Null sender and Audit.put in the block right after an Inner Ring re-designation, by a dropped and by a new member; NNS is C11, update is C16) from a small fixture built through the API, arguments concrete/valid, signer set symbolic over {Alphabet 2n/3+1 account, committee n/2+1 account, Inner Ring majority account, one committee member, the named user, the named node}+stranger; committee size = param2 (5, 6, 7 in quick, 1..7 in thorough: the two thresholds differ and every residue class modulo 3 is present, since a slip in the 2n/3+1 arithmetic shows in one class only)"},
 	{Prop: "C03", Pkg: "proxy", Func: "VerifC03Verify", Link: []string{"alphabet", "netmap", "neofs", "processing", "proxy"},
-		Quick: [][]int{{7}}, Thorough: [][]int{{1}, {3}, {7}},
+		Quick: [][]int{{5}, {6}, {7}}, Thorough: [][]int{{1}, {2}, {3}, {4}, {5}, {6}, {7}},
 		Bound: "verify of Proxy, Alphabet and Processing with the same symbolic signer set"},
 	{Prop: "C16", Pkg: "proxy", Func: "VerifC16GateAfterDesignation", Link: []string{"alphabet", "audit", "balance", "container", "neofs", "neofsid", "netmap", "nns", "processing", "proxy", "reputation"},
 		Quick:    [][]int{{1, 0, 8}, {1, 1, 8}, {1, 0, 4}, {1, 1, 4}},
@@ -225,7 +225,7 @@ var registry = []Harness{
 }
 
 func c03Params(sizes []int) [][]int {
-	counts := []int{7, 11, 11, 4, 8, 2}
+	counts := []int{7, 11, 11, 6, 8, 2}
 	var out [][]int
 	for _, n := range sizes {
 		for g, c := range counts {
